@@ -1,17 +1,16 @@
 (* Xlsx/Refutations.v — the unguarded statement "the importer never panics" is false for the
    skeleton as the code stands: witness packages (Generated/Witness_c25.v, the same packages the
    harness builds as zip files and feeds to the real importer) evaluated by vm_compute.
-   Each witness violates the guard and makes the skeleton panic; the valid base packages satisfy
+   Each witness violates the guard and makes the skeleton panic (three former witnesses, repaired by
+   2db1935 / f8b4521 / d5aa85e, now return Err and satisfy the guard, see the fixed_ lemmas); the valid base packages satisfy
    the guard and load. *)
 From IronCalc Require Import Base.Prelude Xlsx.Skeleton Xlsx.SkeletonProofs Generated.Witness_c25.
 
 Definition never_panics : Prop := forall p, load_skel p <> Panic.
 
-Lemma panics_no_sheetdata : guard w_no_sheetdata = false /\ load_skel w_no_sheetdata = Panic.
+(* repaired in /repo: the former witness now satisfies the guard and the importer returns Err *)
+Lemma fixed_no_sheetdata : guard w_no_sheetdata = true /\ load_skel w_no_sheetdata = Err.
 Proof. split; vm_compute; reflexivity. Qed.
-
-Lemma refuted_no_sheetdata : ~ never_panics.
-Proof. intros H. exact (H w_no_sheetdata (proj2 panics_no_sheetdata)). Qed.
 
 Lemma panics_short_target_empty : guard w_short_target_empty = false /\ load_skel w_short_target_empty = Panic.
 Proof. split; vm_compute; reflexivity. Qed.
@@ -43,17 +42,13 @@ Proof. split; vm_compute; reflexivity. Qed.
 Lemma refuted_no_worksheets_dir : ~ never_panics.
 Proof. intros H. exact (H w_no_worksheets_dir (proj2 panics_no_worksheets_dir)). Qed.
 
-Lemma panics_dangling_rid : guard w_dangling_rid = false /\ load_skel w_dangling_rid = Panic.
+(* repaired in /repo: the former witness now satisfies the guard and the importer returns Err *)
+Lemma fixed_dangling_rid : guard w_dangling_rid = true /\ load_skel w_dangling_rid = Err.
 Proof. split; vm_compute; reflexivity. Qed.
 
-Lemma refuted_dangling_rid : ~ never_panics.
-Proof. intros H. exact (H w_dangling_rid (proj2 panics_dangling_rid)). Qed.
-
-Lemma panics_local_sheet_id_out_of_range : guard w_local_sheet_id_out_of_range = false /\ load_skel w_local_sheet_id_out_of_range = Panic.
+(* repaired in /repo: the former witness now satisfies the guard and the importer returns Err *)
+Lemma fixed_local_sheet_id_out_of_range : guard w_local_sheet_id_out_of_range = true /\ load_skel w_local_sheet_id_out_of_range = Err.
 Proof. split; vm_compute; reflexivity. Qed.
-
-Lemma refuted_local_sheet_id_out_of_range : ~ never_panics.
-Proof. intros H. exact (H w_local_sheet_id_out_of_range (proj2 panics_local_sheet_id_out_of_range)). Qed.
 
 Lemma panics_defined_name_without_worksheets : guard w_defined_name_without_worksheets = false /\ load_skel w_defined_name_without_worksheets = Panic.
 Proof. split; vm_compute; reflexivity. Qed.
